@@ -134,10 +134,17 @@ type cworld struct {
 	keyNames  map[int]string
 	keyNos    map[string]int
 	indexOps  int
+
+	// a goroutine other than the scheduler can be held inside a critical
+	// section of the lock source (at a hook point, under the source's mutex)
+	mainG     int64
+	stallSite string
+	stalled   chan struct{}
+	stallHit  bool
 }
 
 func newCWorld(r *hx.Run, mode string) *cworld {
-	w := &cworld{r: r, mode: mode, ok: true,
+	w := &cworld{r: r, mode: mode, ok: true, mainG: hx.GoID(),
 		holders: map[int]int{}, released: map[int]bool{}, gkey: map[int]int{}, inside: map[int]int{},
 		inCall: map[int64]*caller{}, lastCall: map[int64]*caller{}, relOf: map[int64]*caller{},
 		rawLockG: map[int64]*rawThread{}, rawTryG: map[int64][2]int{}, rawRelG: map[int64]int{}, rawFired: map[int64]bool{}, rawAcq: map[int64]int{},
@@ -241,7 +248,20 @@ func (w *cworld) hook(site, key string) {
 	}
 	g := hx.GoID()
 	w.mu.Lock()
-	defer w.mu.Unlock()
+	w.hookLocked(g, site, key)
+	var wait chan struct{}
+	if w.stallSite == site && g != w.mainG && !w.stallHit {
+		w.stallHit = true
+		wait = w.stalled
+		w.r.Count("stall:" + w.mode + ":" + site)
+	}
+	w.mu.Unlock()
+	if wait != nil {
+		<-wait // still inside the lock source's critical section
+	}
+}
+
+func (w *cworld) hookLocked(g int64, site, key string) {
 	k := w.keyNo(key)
 	if c := w.relOf[g]; c != nil && site == "lock.release" {
 		c.relFired = true
@@ -566,6 +586,9 @@ type mUpdater struct {
 
 func (u *mUpdater) Name() string { return u.name }
 func (u *mUpdater) Fetch(ctx context.Context, _ driver.Fingerprint) (io.ReadCloser, driver.Fingerprint, error) {
+	if u.w == nil {
+		return nil, "", driver.Unchanged
+	}
 	switch u.w.enterBody(ctx, "updater "+u.name) {
 	case 0:
 		return nil, "", driver.Unchanged
@@ -609,6 +632,9 @@ func (s *mStore) GetUpdateDiff(context.Context, uuid.UUID, uuid.UUID) (*driver.U
 	return nil, nil
 }
 func (s *mStore) GC(ctx context.Context, _ int) (int64, error) {
+	if s.w == nil {
+		return 0, nil
+	}
 	if s.w.enterBody(ctx, "store.GC") == 1 {
 		return 0, errScripted
 	}
@@ -671,6 +697,9 @@ type uUpdater struct {
 
 func (u *uUpdater) Name() string { return u.name }
 func (u *uUpdater) Fetch(ctx context.Context, _ *zip.Writer, _ udriver.Fingerprint, _ *http.Client) (udriver.Fingerprint, error) {
+	if u.w == nil {
+		return "", udriver.ErrUnchanged
+	}
 	switch u.w.enterBody(ctx, "updater "+u.name) {
 	case 0:
 		return "", udriver.ErrUnchanged
@@ -689,7 +718,11 @@ func (f *uFactory) Name() string { return "c20" }
 func (f *uFactory) Create(context.Context, udriver.ConfigUnmarshaler) ([]udriver.Updater, error) {
 	var us []udriver.Updater
 	for _, k := range f.keys {
-		us = append(us, &uUpdater{w: f.w, name: f.w.keyName(k)})
+		name := fmt.Sprintf("k%d", k)
+		if f.w != nil {
+			name = f.w.keyName(k)
+		}
+		us = append(us, &uUpdater{w: f.w, name: name})
 	}
 	return us, nil
 }
@@ -1066,6 +1099,10 @@ func (w *cworld) randomOp(rnd *hx.Rand, nkeys int, nextTid *int) {
 	all := w.allRaw()
 	nthreads := len(w.threads)
 	w.mu.Unlock()
+	if rnd.Chance(1, 20) && w.active() < 8 {
+		w.stallOp(rnd, nkeys, body, nextTid)
+		return
+	}
 	switch c := rnd.Intn(100); {
 	case c < 28 && w.active() < 10:
 		p := w.pickParent(rnd)
@@ -1144,6 +1181,77 @@ func (w *cworld) randomOp(rnd *hx.Rand, nkeys int, nextTid *int) {
 	}
 }
 
+func (w *cworld) startCall(rnd *hx.Rand, nkeys int, k int) {
+	p := w.pickParent(rnd)
+	switch w.mode {
+	case "index":
+		if k < 0 {
+			k = rnd.Intn(nkeys)
+		}
+		w.startIndex(k, p)
+	case "manager":
+		w.startMrun(p, subset(rnd, nkeys), 2*rnd.Intn(2))
+	default:
+		w.startUrun(p, subset(rnd, nkeys))
+	}
+}
+
+// stallOp holds one goroutine inside a critical section of the lock source
+// (at the hook point, under the source's own mutex), piles further lock
+// requests up behind it, and lets go.
+func (w *cworld) stallOp(rnd *hx.Rand, nkeys int, body []*caller, nextTid *int) {
+	site := "lock.release"
+	if len(body) == 0 || rnd.Chance(1, 2) {
+		site = "lock.acquire"
+		if w.mode != "index" {
+			site = "lock.try.acquire"
+		}
+	}
+	w.mu.Lock()
+	w.stallSite, w.stalled, w.stallHit = site, make(chan struct{}), false
+	w.mu.Unlock()
+	key := -1
+	if site == "lock.release" {
+		c := body[rnd.Intn(len(body))]
+		key = c.key
+		w.leave(c, rnd)
+	} else {
+		w.startCall(rnd, nkeys, -1)
+	}
+	if !w.quiesce() {
+		w.ok = false
+	}
+	w.mu.Lock()
+	hit := w.stallHit
+	w.mu.Unlock()
+	if hit && w.ok {
+		// everything started now queues on the lock source's mutex
+		for n := 1 + rnd.Intn(3); n > 0; n-- {
+			if rnd.Chance(1, 3) {
+				*nextTid++
+				k := rnd.Intn(nkeys)
+				if key >= 0 && key < nkeys && rnd.Chance(1, 2) {
+					k = key
+				}
+				w.rawLock(*nextTid, k, w.pickParent(rnd))
+			} else {
+				k := -1
+				if key >= 0 && key < nkeys && rnd.Chance(1, 2) {
+					k = key
+				}
+				w.startCall(rnd, nkeys, k)
+			}
+		}
+		if !w.quiesce() {
+			w.ok = false
+		}
+	}
+	w.mu.Lock()
+	w.stallSite = ""
+	close(w.stalled)
+	w.mu.Unlock()
+}
+
 // drain lets every call finish and every outsider release, then requires that
 // every key can be taken: nothing may be left held.
 func (w *cworld) drain(rnd *hx.Rand, nkeys int) {
@@ -1215,6 +1323,127 @@ func (w *cworld) drain(rnd *hx.Rand, nkeys int) {
 	case <-time.After(10 * time.Second):
 		w.r.Fail("", "goroutines-stuck-after-drain")
 	}
+}
+
+// indexSync is one Libindex.Index call on the calling goroutine.
+func (w *cworld) indexSync(k, p int) {
+	g := hx.GoID()
+	var err error
+	m, ctx := w.manifests[k], w.parents[p].ctx
+	out := hx.Guard(func() string { _, err = w.lib.Index(ctx, m); return "" })
+	w.mu.Lock()
+	c := w.lastCall[g]
+	delete(w.lastCall, g)
+	delete(w.inCall, g)
+	if c != nil {
+		c.returned, c.retClass = true, classOf(err)
+		if out != "" {
+			c.retClass = "panic"
+		}
+		if w.free {
+			w.emitRet(c)
+		}
+	} else {
+		w.r.Fail("", "index-call-did-not-request-the-manifest-lock")
+	}
+	w.mu.Unlock()
+}
+
+// callerFreeRun lets real goroutines race through Libindex.Index: a live and
+// an already abandoned request context, critical sections that only yield.
+// The caller lines are written by the callers themselves, in program order;
+// the lock lines under the lock source's mutex, in real order.
+func callerFreeRun(r *hx.Run, rnd *hx.Rand, nthreads, iters int) {
+	w := newCWorld(r, "index")
+	defer w.teardown()
+	r.Op("reset", "ok", false)
+	if !w.ok {
+		return
+	}
+	w.free = true
+	nkeys := 1 + rnd.Intn(3)
+	for k := 0; k < nkeys; k++ {
+		w.manifest(k)
+	}
+	w.newParent(false)
+	w.newParent(true)
+	var wg sync.WaitGroup
+	for t := 0; t < nthreads; t++ {
+		rr := rnd.Fork()
+		wg.Add(1)
+		go func() {
+			defer wg.Done()
+			for i := 0; i < iters; i++ {
+				p := 0
+				if rr.Chance(1, 5) {
+					p = 1
+				}
+				w.indexSync(rr.Intn(nkeys), p)
+			}
+		}()
+	}
+	done := make(chan struct{})
+	go func() { wg.Wait(); close(done) }()
+	select {
+	case <-done:
+	case <-time.After(60 * time.Second):
+		r.Fail("", "index-free-run-no-progress (lost wake-up, leaked key or deadlock)")
+		return
+	}
+	w.drain(rnd, nkeys)
+}
+
+// replayAbandonedWaiter is the history behind seeded change C20-c3, on the
+// real Libindex.Index: a request queues behind another one for the same
+// manifest, is abandoned while it waits, the first one finishes; afterwards a
+// third request must get through.
+func replayAbandonedWaiter(r *hx.Run) {
+	w := newCWorld(r, "index")
+	defer w.teardown()
+	r.Op("reset", "ok", false)
+	if !w.ok {
+		return
+	}
+	rnd := hx.NewRand(1)
+	step := func() bool {
+		if !w.quiesce() {
+			return false
+		}
+		w.flush()
+		return w.ok
+	}
+	p0, p1, p2 := w.newParent(false), w.newParent(false), w.newParent(false)
+	w.startIndex(0, p0)
+	if !step() {
+		return
+	}
+	w.startIndex(0, p1)
+	if !step() {
+		return
+	}
+	w.cancelParent(p1)
+	w.mu.Lock()
+	body := w.inBody()
+	w.mu.Unlock()
+	if len(body) != 1 {
+		r.Fail("", "replay: the first Index call is not inside its critical section")
+		return
+	}
+	w.leave(body[0], rnd)
+	if !step() {
+		return
+	}
+	w.startIndex(0, p2)
+	if !step() {
+		return
+	}
+	w.mu.Lock()
+	body = w.inBody()
+	w.mu.Unlock()
+	if len(body) != 1 {
+		r.Fail("", "third-index-call-not-admitted-after-an-abandoned-waiter (the manifest key is still held)")
+	}
+	w.drain(rnd, 1)
 }
 
 func callerScenario(r *hx.Run, rnd *hx.Rand, mode string, nops int) {
